@@ -135,6 +135,13 @@ def known_match(known, pid, fn, clause, model):
     for k in known.get("findings", []):
         if k["property"] != pid or k["function"] != fn or k["clause"] != clause:
             continue
+        w = k.get("witness")
+        if isinstance(w, dict) and "predicate" in w and isinstance(model, dict) and model:
+            try:
+                if not eval(w["predicate"], {}, {"input": model, "f": {"input": model}}):
+                    continue
+            except Exception:
+                continue
         return k
     return None
 
@@ -636,8 +643,12 @@ def do_replay(run, ctx, reg, path):
 
 def finish(run, mod, total_obl, discharged):
     # lines
+    printed = set()
     for k, path in run.known_hits:
-        print(f"KNOWN-FINDING: property={run.pid} {k.get('text', k.get('function') + '.' + k.get('clause'))}")
+        line = f"KNOWN-FINDING: property={run.pid} {k.get('text', k.get('function') + '.' + k.get('clause'))}"
+        if line not in printed:
+            printed.add(line)
+            print(line)
     rc = 0
     seen = set()
     for v in run.violations:
